@@ -6,7 +6,7 @@ cd /repo && git worktree remove --force $W 2>/dev/null; git worktree add -q --de
 cd $W && git apply $O/patch.diff || { echo "PATCH DOES NOT APPLY on HEAD"; exit 1; }
 echo "== $P tests with change:"; cargo test --workspace --no-fail-fast --offline 2>&1 | grep -E "^test result" | head -2 | awk '{print $4,$5,$6,$7}'
 (cd $D && cargo run --offline -q >/dev/null 2>&1; echo "demo with change exit=$?")
-git stash -q; (cd $D && cargo run --offline -q >/dev/null 2>&1; echo "demo without change exit=$?"); git stash pop -q
+git apply -R $O/patch.diff; (cd $D && cargo run --offline -q >/dev/null 2>&1; echo "demo without change exit=$?"); git apply $O/patch.diff   # never git stash: the stash is shared by all worktrees
 cd /verif
 for c in $CHECKS; do SAKURA_REPO=$W ./check $c 2>&1 | grep -E "^(VIOLATION|OK|FAIL|CHECK-ERROR)" | head -3; done
 python3 tools/gen_tables.py
